@@ -160,3 +160,11 @@ func VerifC08_AllocateAction() {
 	actAllocateRun("C08", actOpts{nNodes: 1, nJobs: 2, bits: 8, sameQueue: true, symLimits: true, symPreempt: true,
 		existing: vr.Choose("existing", 2), existingInQa: true, existingSt: []pod_status.PodStatus{pod_status.Running, pod_status.Binding}})
 }
+
+// VerifC16_AllocateOrderWithQueueDepth: the same with a configured queue depth of 2 and a node that
+// can hold any number of the jobs: the two jobs the action considers are the best two by priority,
+// then age - a lower-priority / younger identical job is never placed while a better one stays pending.
+// BOUND: 1 node (symbolic cpu), 1 leaf queue, 3 pending identical jobs, queue depth 2, symbolic int32 priorities and creation seconds
+func VerifC16_AllocateOrderWithQueueDepth() {
+	actAllocateRun("C16", actOpts{nNodes: 1, nJobs: 3, bits: 8, sameQueue: true, sameCpu: true, symPriority: true, symCreated: true, queueDepth: 2})
+}
